@@ -21,13 +21,69 @@ CLAIMED = {
   'Theorems in Props/C15.lean: the ancestor walk of compute() terminates for every finite hypernym graph and visits exactly the word synset and its ancestors, each once (C15_touched, via Lemmas/Walk.lean: sound, complete, nodup, fuel bound); C15_once / C15_total give the closed form of every synset weight and part-of-speech total; C15_monotone, C15_le_total, C15_prob_range, C15_prob_monotone derive monotonicity and 0 < p <= 1 (for smoothing > 0 and hypernymy inside one a/s-folded part of speech); unknown words ignored; s counted as a. Tied to wn/ic.py by running compute() on random graphs x corpora x distribute x smoothing and comparing every weight with the exact rational (1e-9 relative), plus an independent Fraction/BFS oracle and a load() file check.',
   'Trusted: Lean kernel, standard axioms; float summation order, wordnet.synsets(word) lookup (C09) and file parsing of load() are covered by correspondence/oracle only.'),
  'C01': (
-  'Lean 4 executable relational model of _add.py/_queries.py/_core.py (layer B) tied by full-observation correspondence; document-level oracle; proofs on the model (see level text)',
-  'The whole add path (_precheck, lookup tables, _collect_frames, _insert_lexicon, lexid map, the fifteen _insert_* steps with their sub-select resolutions, NOT NULL/UNIQUE failures) and the query/entity layer are transcribed into Lean (Model/Add.lean, Query.lean, Api.lean, ~1500 lines) and run against the real library on generated resources (LMF 1.0-1.3, hostile strings, metadata everywhere, extensions using every documented pattern, extensions of extensions, lowered BATCH_SIZE): the complete public-API observation of every lexicon must agree with the model and with an independent document-level oracle field by field. Theorems currently proved over this model are listed in the evidence (theorems); the refinement theorem (decode after add = document) is proved for the slice named there and stated _partial for the rest.',
+  'Lean 4 executable relational model of _add.py/_queries.py/_core.py tied by full-observation correspondence and a document-level oracle; refinement theorems for the lexicon and entry slice',
+  'The whole add path (_precheck, lookup tables, _collect_frames, _insert_lexicon, lexid map, the fifteen _insert_* steps with their sub-select resolutions, NOT NULL/UNIQUE failures) and the query/entity layer are transcribed into Lean (Model/Add.lean, Query.lean, Api.lean) and run against the real library on generated resources (LMF 1.0-1.3, hostile strings, metadata everywhere, extensions using every documented pattern, extensions of extensions, lowered BATCH_SIZE): the complete public-API observation of every lexicon must agree with the model and with an independent document-level oracle field by field. Proved in Props/C01.lean (any database, any document): the lexicon row written by _insert_lexicon carries exactly the document attributes and metadata with a fresh rowid and leaves other rows alone (C01_lexicon_row), dependencies are recorded (C01_dependencies_recorded), _insert_entries (a for-loop, shown equal to a monadic fold) writes exactly one row per non-external entry in document order with id, lemma part of speech and metadata (C01_entries_rows), duplicate ids fail, and find_entries decodes exactly the stored entry and form rows (C01_words_decode / C01_words_complete). The remaining insert steps (forms, senses, synsets, relations, examples...) are tied by correspondence only: the refinement is partial.',
   'Trusted: Lean kernel, standard axioms; SQLite storage/ordering and the JSON metadata adapter are covered by correspondence only. Known finding F12 (unscoped tags/pronunciations).'),
+ 'C02': (
+  'Lean 4 proof of loadTree v (dumpTree r) = ok r over a tree-level transcription of wn/lmf.py (dump / _dump_* / expat handlers / _validate_*), for every version and every normal-form resource; correspondence of dump and load with the model on generated resources',
+  'Props/C02.lean proves, bottom-up and with no bound on list lengths or nesting: every element kind round-trips (Tag, Pronunciation, relations, Example, Count incl. decimal print/parse, Definition, ILIDefinition, Lemma/ExternalLemma, Form/ExternalForm, Sense/ExternalSense with subcat, SyntacticBehaviour in both encodings, entries, synsets with members/lexfile, Requires/Extends, Lexicon/LexiconExtension), metadata extraction inverts _meta_dict for every canonical metadata dictionary (all 17 keys), every dumped tree passes the loader structural checks (dumpTree_ok), and hence C02_load_dump: loadTree r.version (dumpTree r) = ok r for every resource in the loader normal form (NFresource: optional attributes absent rather than empty, flags absent rather than default, canonical metadata, ids in space-separated attributes non-empty and space-free, nothing a version cannot express) and C02_fixed_point. A concrete resource with an extension and every optional feature is shown to satisfy the hypotheses. Character-level XML escaping and expat tokenisation are outside the tree model: they are covered by the correspondence (real dump vs model tree, real load vs model load, byte fixed point on hostile strings) only.',
+  'Trusted: Lean kernel, standard axioms; the ElementTree-based extraction of the tree from the dumped file in the harness; expat and the XML printer.'),
+ 'C03': (
+  'Lean 4 model of _export.py over the relational model, tied by correspondence (export of real database vs model) and a document-level oracle (export then load then re-add); theorems on export composed with _insert_lexicon',
+  'Random databases (lexicons with dependencies, proposed ILIs with/without definitions, frames in both encodings, side-by-side versions, metadata) are exported by the real library in every LMF version and compared with the model export; the exported file is loaded and compared with the added document, and re-added to an empty database whose observation must coincide. Proved in Props/C03.lean: lexicon attributes and metadata survive add-then-export (C03_lexicon_attributes), dependencies are exported exactly and round-trip through _insert_lexicon (C03_dependencies, C03_dependencies_round_trip), only own entries are exported, ILI / proposed-ILI encoding incl. proposed ILIs without definition (C03_ili_encoding, C03_proposed_ili), sense-frame links are preserved exactly in the 1.0 encoding (C03_frame_links_1_0) and the >=1.1 subcat encoding (C03_subcat_links). The full statement export o add = id is decided by correspondence + oracle (partial proof). Known finding F2-residual (frames without id in >=1.1 exports).',
+  'Trusted: Lean kernel, standard axioms; SQLite index order of find_syntactic_behaviours is modelled (sorted by frame string) and validated by correspondence.'),
+ 'C04': (
+  'Lean 4 theorems on the query layer (every query stays inside the selected lexicons, frame lemmas for owner-filtered tables) + correspondence/oracle over multi-lexicon worlds',
+  'Props/C04.lean proves for every database: words/senses/synsets returned for a selection are owned by selected lexicons (C04_inside_entries/senses/synsets), word.senses()/synset.members come from the scope, relation rows and targets are owned by lexicons in scope, expanded targets are resolved back into the scope or are placeholders, examples/counts are owner-filtered and adding rows owned by an unselected lexicon does not change them (C04_frame_examples), the scope used by entities (C04_scope); and a kernel-checked statement of the leak behind known findings F12/F13 (form tags have no owner filter). The real library is run on worlds with base + extension + unrelated lexicon + second version under every selection, compared with the model, and with an oracle computed from the selected documents only; adding/removing an unselected lexicon must not change any observation.',
+  'Trusted: Lean kernel, standard axioms; correspondence harness. Known findings F12/F13 (unselected extension forms, tags, pronunciations leak), F5 (sense.word by id).'),
  'C05': (
-  'Lean 4 relational model with remove()/cascade (Model/Remove.lean, schema re-checked against Gen.schema) tied by step-by-step correspondence over random histories; fresh-database oracle + SQLite audits',
-  'Random histories of add / remove (ids, versions, star patterns, lists) / add-ILI over a universe with extensions of extensions, a dependant, two versions of one id and an unrelated lexicon are executed on the real library and on the Lean model; observations agree after every step. The final observation must equal that of a fresh database holding exactly the installed lexicons, PRAGMA foreign_key_check / integrity_check must be clean and every owned row must belong to an installed lexicon. Theorems proved over the model are listed in the evidence. Known finding F12 (tags/pronunciations of a removed extension survive).',
-  'Trusted: Lean kernel, standard axioms; SQLite cascade execution and rowid allocation modelled (max+1), validated by correspondence.'),
+  'Lean 4 proof that remove() preserves referential integrity and deletes exactly the owned rows (cascade model of schema.sql) + step-by-step correspondence over random histories + SQLite audits',
+  'Props/C05.lean: for every database satisfying the 35 foreign-key clauses of schema.sql (FK), deleteLexicon and remove() (extensions first) again satisfy them (C05_no_dangling, C05_remove_no_dangling); nothing owned by the removed lexicon remains in any of 14 owned tables (C05_nothing_owned_remains); dependencies of other lexicons survive with provider set to NULL (C05_dependency_kept/unlinked); exactly the lexicon and its listed extensions disappear, other lexicon rows are kept unchanged (C05_remove_lexicons); row-level frame theorems say which rows survive (iff); shared tables untouched. Random histories of add / remove / add-ILI over a universe with extensions of extensions, a dependant, two versions and an unrelated lexicon are executed on the real library and the model (agreement after every step), the final observation must equal a fresh database holding the installed lexicons, PRAGMA foreign_key_check / integrity_check must be clean. Completeness of get_lexicon_extensions for deep extension chains is validated by correspondence, not proved. Known finding F12-residue.',
+  'Trusted: Lean kernel, standard axioms; SQLite cascade execution and rowid allocation modelled (max+1), validated by correspondence; Model/Schema obligations tie the table list to schema.sql.'),
+ 'C06': (
+  'Lean 4 proof over a transaction model (statement trace with rollback) that add/remove are atomic at every failure point + fault injection on the real library at every progress/authorizer callback',
+  'Props/C06.lean: for every statement trace and every failure point the visible database is either the old or the complete new one (C06_atomic, C06_fail_at_any_point), a failed add leaves the store usable, success commits everything, add fails closed. The real add()/remove() are interrupted at every progress-handler tick and every n-th SQL statement (Exception, KeyboardInterrupt, custom BaseException, sqlite errors, disk-full simulation through set_authorizer) and the database is compared with the pre-state/post-state observations and re-used afterwards.',
+  'Trusted: Lean kernel, standard axioms; SQLite journal/rollback implementation (runtime) is exercised by fault injection only; process kill / power loss are outside the model.'),
+ 'C07': (
+  'Lean 4 proof of the routing and skip rules of add()/project iteration (Model/Project.lean) + correspondence on generated packages, collections, archives and skip combinations',
+  'Props/C07.lean: add() routes a file, package directory, collection or archive to exactly the resources it contains, rejects what is none of these, the skip rules (already installed; extension without base; force) decide exactly which lexicons are inserted and a fully skipped call is a no-op. Generated project layouts (nested, compressed .xz/.gz/.tar, with ILI files, duplicate lexicons across files) are added to real databases and compared with the model decision and with the installed set.',
+  'Trusted: Lean kernel, standard axioms; file-system walking and decompression are runtime behaviour covered by correspondence.'),
+ 'C08': (
+  'Lean 4 proof that lexicon specifier matching is exact glob semantics with most-recent selection (Model/Glob.lean) + correspondence on random lexicon sets and specifiers',
+  'Props/C08.lean: glob matching of id:version specifiers (literal, *, id:*, *:ver) is characterised exactly, a bare id selects the most recently added version and at most one, lang filters, unmatched specifiers raise, the union over a space-separated list is complete and duplicate-free. Real find_lexicons / Wordnet(lexicon=...) / lexicons() are compared with the model over random installed sets (several versions per id, unusual characters) and specifier strings.',
+  'Trusted: Lean kernel, standard axioms; SQLite GLOB is modelled by the Lean matcher and validated by correspondence.'),
+ 'C09': (
+  'Lean 4 proof of the two-pass look-up (_find_helper: exact forms first, normalized back-off, de-duplication) + correspondence with document-level oracle on generated lexicons and queries',
+  'Props/C09.lean: the form condition of find_entries/senses/synsets, first pass = exact matches, back-off only when the first pass is empty and a normalizer is set, no duplicates, soundness and completeness of the union over lemmatizer proposals, the normalized_form column content. Real words()/senses()/synsets() with/without normalizer, search_all_forms and lemmatizers are compared with the model and an oracle over the documents (case/diacritics variants, forms shared between entries, pos filters).',
+  'Trusted: Lean kernel, standard axioms; Unicode normalisation (NFKD, casefold) is a parameter of the model, computed by Python in the harness.'),
+ 'C10': (
+  'Lean 4 theorems on navigation and translation (Model/Api.lean) + correspondence/oracle over multi-lexicon worlds with interleaved adds',
+  'Props/C10.lean: word.senses()/synset.senses() list exactly the stored senses of that entry/synset owned by the scope (sound and complete), the observable sense carries the ids of the rows it references, translate() returns exactly the synsets of the target lexicons sharing the ILI (C10_translate_exact), nothing for a synset without ILI, same ILI, symmetry (C10_translate_symmetric); Sense.word() re-queries by id, with a kernel-checked two-version counter-example (known finding F5). Equality/hash by entity identity, word.synsets()/synset.words()/lemmas() as images, derived translations and the family cache across adds are decided by correspondence and oracle on the real API.',
+  'Trusted: Lean kernel, standard axioms; Python object identity/hash is outside the model and checked on the real objects. Known finding F5.'),
+ 'C11': (
+  'Lean 4 theorems: relation queries sound and complete w.r.t. declared rows, relation_map keys exact and duplicate-free, closure sound/duplicate-free/terminating, relation_paths simple + correspondence/oracle on cyclic graphs with extensions',
+  'Props/C11.lean: get_synset_relations reports exactly the declared relations visible from the scope with the right name, source, target, lexicon and metadata (C11_synset_relations_sound / _complete up to the DISTINCT of the query), type restriction exact, relation_map has one entry per key, keys exactly those iterated, dc:type distinguishes keys, get_related duplicate-free, closure() terminates (structural), yields only reachable entities and none twice, relation_paths() yields only simple paths and terminates. Completeness of closure (every reachable entity is yielded) is decided by the graph oracle on the real API (partial proof). Real relations()/get_related()/relation_map()/closure()/relation_paths() on generated graphs with cycles, self-loops, parallel relations differing in dc:type and relations added by extensions are compared with model and oracle.',
+  'Trusted: Lean kernel, standard axioms; correspondence harness.'),
+ 'C12': (
+  'Lean 4 exact characterisation of expanded relations and of the default expand set (Model/Api.lean) + correspondence/oracle over worlds with expand lexicons',
+  'Props/C12.lean: C12_expanded_exact characterises every borrowed relation (relation of an expand-lexicon synset sharing the ILI, target resolved to the scope synsets with the target ILI or the placeholder), targets carry that ILI and none is skipped, targets without ILI are dropped, the relation keeps the expand lexicon source/target/lexicon, own relations come first, expand=\'\' and ILI-less synsets use own relations only, default expansion of a restricted Wordnet is exactly its installed dependencies with the missing ones reported, an unrestricted one expands over all lexicons. Real Wordnet objects with explicit/default/empty expand are compared with the model and an oracle on generated worlds.',
+  'Trusted: Lean kernel, standard axioms; the WnWarning is observed through warnings.catch_warnings in the harness.'),
+ 'C16': (
+  'Lean 4 proof that results do not depend on set-iteration order at every place where the code iterates or hands over a set (sorted(common), sorted(set(..)), form IN (..)) + cross-process comparison under different PYTHONHASHSEEDs',
+  'Props/C16.lean: a strictly sorted list is determined by its elements (sorted_unique); sorted(common) is the same for every enumeration of the set (C16_sorted_common_oblivious, C16_common_hypernyms_oblivious); sorted(set(strings)) depends only on membership (C16_sorted_set_oblivious); find_entries/find_senses/find_synsets are invariant under reordering/duplication of the candidate forms (C16_find_*_forms_oblivious). Everything else in the model is a deterministic function by construction. The real library is run in child processes with 3+ hash seeds (and reversed insertion order) over a battery of every public call, taxonomy, similarity, IC, validation, dump and export bytes; transcripts must be byte-identical.',
+  'Trusted: Lean kernel, standard axioms; SQLite row order for identical files and queries is assumed deterministic (observed by the seed-to-seed comparison).'),
+ 'C18': (
+  'Lean 4 proof that each validation code fires exactly on its defect (Model/Validate.lean), reverse-relation table proved involutive by kernel evaluation + correspondence on generated defective lexicons',
+  'Props/C18.lean: reverse relation table is functional, involutive and closed (decide +kernel over all entries); check selection (select=) exact; per-code exactness for W201 E204 W301 W303 W304 W305 W306 E401 W402 W502, soundness of W404; dangling targets do not crash. Real validate() on generated lexicons with injected defects of every kind is compared with the model report (codes, items, contexts).',
+  'Trusted: Lean kernel, standard axioms; the table regenerated from wn/constants.py by the translator.'),
+ 'C19': (
+  'Lean 4 proof that _add_ili only writes ilis/ili_statuses, gives every listed ILI the status and definition of its last row, creates unknown ones, keeps ids unique and is idempotent + correspondence/oracle on real index files',
+  'Props/C19.lean (any database, any row list incl. duplicates): C19_frame (22 other tables equal), existing ILI rows keep rowid/id so synset links resolve the same (C19_links_resolve_same), C19_listed_updated / C19_unlisted_untouched / C19_listed_present, C19_ids_unique, C19_idempotent (loading the same file twice = once). Independence of the load order relative to lexicons is decided by correspondence and oracle (both orders executed on the real library). Real add() of .tsv index files (two files, presupposed/active/deprecated statuses, quoted definitions, short rows) is compared with the model and a document oracle.',
+  'Trusted: Lean kernel, standard axioms; TSV parsing (_ili.load) is modelled and validated by correspondence.'),
+ 'C20': (
+  'Lean 4 proof that is_lmf agrees with the header check, unknown elements / repeated single-valued children / missing ids are rejected at any depth and rejection is whole-document; element tables proved equal to the tables regenerated from lmf.py; correspondence on mutated files',
+  'Props/C20.lean: C20_islmf_iff_header, header version/rejection theorems, C20_unknown_element_rejected and C20_repeated_single_rejected for subtrees at any depth, missing id/version rejected for lexicons, entries, senses, synsets, errors propagate to the whole load (C20_rejected_as_a_whole), and obligations C20_gen_* tie xmldecl, doctypes, element tables, storage keys and the single-valued set to wn/lmf.py as regenerated on every run; every dumped tree is accepted (C02 dumpTree_ok). scan_lexicons agreeing with load is decided by correspondence (regex model vs real scan vs full load) on generated and mutated files. add() leaving the database unchanged on rejection is C06. Known finding F15 (scan label raw text).',
+  'Trusted: Lean kernel, standard axioms; expat well-formedness checking is runtime behaviour exercised by the mutated-file stream.'),
  'C17': (
   'Lean 4 proof over a transcription of wn/morphy.py; rule table re-generated from the source and proved equal to the specification table on every run; correspondence on generated lexicons',
   'Theorems in Props/C17.lean: soundness (an initialised Morphy returns only lemmas of the requested part of speech), completeness for the query itself, for exception (irregular) forms and for every detachment rule, exact characterisation of the uninitialised result (rule outputs with proper suffixes only, plus the original form), the dictionary structure of __call__, and Gen.morphy_rules = rules. The real Morphy is run on generated lexicons (inflection-like lemmas, shared irregular forms, a/s, bare-suffix forms) x queries x pos in {None,n,v,a,s,r,x} x both modes and must agree with the model; Wordnet(lemmatizer=...) look-ups are judged against the union over proposed pairs with a document-level oracle (with and without normalizer).',
